@@ -213,6 +213,9 @@ func (c *Ctx) pairCheck(prev *pairMem, lc *leafCase, expected bool, what string)
 			return // the two objects cannot be merged: a (decoy) key of one is a key of the other
 		}
 	}
+	if a.obj.Get(b.leaf.Path[0]) != nil || b.obj.Get(a.leaf.Path[0]) != nil {
+		return // … or a (decoy) key of one is where the OTHER comparison looks (its own attribute may be absent)
+	}
 	obj := avObj()
 	for i, k := range a.obj.Keys {
 		obj.Set(k, a.obj.Vals[i])
